@@ -458,14 +458,7 @@ func c16Counters(c *Ctx, r *Report) {
 						lk, ok := v.(*ssa.Lookup)
 						return ok && pathOf(lk.X) == "*fit.knownMsgNums"
 					})
-					okNotFound := domByBoolEdge(fn, b, false, func(v ssa.Value) bool {
-						ex, ok := v.(*ssa.Extract)
-						if !ok || ex.Index != 1 {
-							return false
-						}
-						call, ok := ex.Tuple.(*ssa.Call)
-						return ok && call.Common().StaticCallee() != nil && call.Common().StaticCallee().Name() == "getField"
-					})
+					okNotFound := domByFound(fn, b, false, nil)
 					// key is unknownField{dm.globalMsgNum, dfield.num}
 					keyOK := false
 					if ld, ok := mu.Key.(*ssa.UnOp); ok {
